@@ -161,6 +161,8 @@ pub enum DeErr {
     Deser(DeserializationError),
 }
 
+/// the generated `SerializeRow::is_empty` on a struct built from the values
+pub type EmptyFn = fn(&[Leaf]) -> bool;
 pub type SerFn = fn(&[Leaf], &[Col]) -> Result<Vec<u8>, SerializationError>;
 /// second argument: the serialized cells; `None` = the whole value is null (UDTs only)
 pub type DeFn = fn(&[Col], Option<&[u8]>) -> Result<Vec<Leaf>, DeErr>;
@@ -176,6 +178,7 @@ pub struct StructInfo {
     pub fields: Vec<(&'static str, String, &'static str)>,
     pub ser: SerFn,
     pub de: Option<DeFn>,
+    pub is_empty: Option<EmptyFn>,
 }
 
 pub fn udt_type(db: &[Col]) -> ColumnType<'static> {
@@ -212,6 +215,11 @@ pub fn ser_value<T: Leafy + SerializeValueTrait>(vals: &[Leaf], db: &[Col]) -> R
     let mut buf = Vec::new();
     SerializeValueTrait::serialize(&v, &typ, CellWriter::new(&mut buf))?;
     Ok(buf)
+}
+
+pub fn row_is_empty<T: Leafy + SerializeRowTrait>(vals: &[Leaf]) -> bool {
+    let v: T = build(vals);
+    SerializeRowTrait::is_empty(&v)
 }
 
 pub fn ser_row<T: Leafy + SerializeRowTrait>(vals: &[Leaf], db: &[Col]) -> Result<Vec<u8>, SerializationError> {
@@ -296,10 +304,10 @@ macro_rules! def_struct {
 }
 
 macro_rules! fns {
-    (value $name:ident) => { (ser_value::<$name> as SerFn, Some(de_value::<$name> as DeFn)) };
-    (svalue $name:ident) => { (ser_value::<$name> as SerFn, None) };
-    (row $name:ident) => { (ser_row::<$name> as SerFn, Some(de_row::<$name> as DeFn)) };
-    (srow $name:ident) => { (ser_row::<$name> as SerFn, None) };
+    (value $name:ident) => { (ser_value::<$name> as SerFn, Some(de_value::<$name> as DeFn), None::<EmptyFn>) };
+    (svalue $name:ident) => { (ser_value::<$name> as SerFn, None, None::<EmptyFn>) };
+    (row $name:ident) => { (ser_row::<$name> as SerFn, Some(de_row::<$name> as DeFn), Some(row_is_empty::<$name> as EmptyFn)) };
+    (srow $name:ident) => { (ser_row::<$name> as SerFn, None, Some(row_is_empty::<$name> as EmptyFn)) };
 }
 
 macro_rules! family {
@@ -307,7 +315,7 @@ macro_rules! family {
         $( def_struct!($kind $name ( $($sattr)* ) { $( $f : $t [ $($fattr)* ] ),* }); )*
         pub fn table() -> Vec<StructInfo> {
             vec![ $( {
-                let (ser, de) = fns!($kind $name);
+                let (ser, de, is_empty) = fns!($kind $name);
                 StructInfo {
                     name: stringify!($name),
                     kind: stringify!($kind),
@@ -315,6 +323,7 @@ macro_rules! family {
                     fields: vec![ $( (stringify!($f), stringify!($t).replace(' ', ""), stringify!($($fattr)*)) ),* ],
                     ser,
                     de,
+                    is_empty,
                 }
             } ),* ]
         }
@@ -349,6 +358,11 @@ family! {
     value V27 (flavor = "enforce_order", forbid_excess_udt_fields) { a: i32 [], b: i32 [] }
     value V28 (flavor = "enforce_order") { a: i32 [allow_missing], b: String [], c: i32 [allow_missing], d: String [allow_missing], e: i32 [], f: Option<i32> [allow_missing] }
     value V29 (flavor = "enforce_order") { a: i32 [allow_missing], b: i32 [allow_missing], c: i32 [] }
+    // ---------------- the DEFAULT flavor (no `flavor = …`), raw identifiers, `crate = …` ----------------
+    value VR1 () { r#type: i32 [], r#fn: Option<i32> [allow_missing], b: String [] }
+    value VR2 (flavor = "enforce_order") { a: i32 [], r#match: String [rename = "mm", allow_missing, default_when_null], r#type: i32 [] }
+    value VR3 (forbid_excess_udt_fields) { a: i32 [], r#match: String [rename = "r#match"] }
+    value VC1 (crate = "scylla") { a: i32 [], b: String [allow_missing] }
     // ---------------- skip_name_checks combined with skip ----------------
     value V36 (flavor = "enforce_order", skip_name_checks) { a: i32 [], s: String [skip], b: String [], c: i32 [allow_missing] }
     // ---------------- fields of collection / nested-UDT / MaybeUnset type through the generated code ----------------
@@ -372,6 +386,10 @@ family! {
     row R22 (flavor = "enforce_order", skip_name_checks) { a: i32 [], b: String [], c: i32 [] }
     row R23 (flavor = "enforce_order") { a: i32 [rename = "x"], s: i32 [skip], b: String [default_when_null], c: Option<i32> [default_when_null] }
     row R24 (flavor = "enforce_order") { a: i32 [], b: i32 [], c: String [], d: Option<String> [], e: i32 [] }
+    row RR1 () { r#type: i32 [], b: String [] }
+    row RR2 (flavor = "enforce_order") { a: i32 [], r#match: String [rename = "m"], r#fn: i32 [default_when_null] }
+    row RR3 (flavor = "enforce_order") { r#type: i32 [], s: i32 [skip], r#fn: String [] }
+    row RC1 (crate = "scylla", flavor = "enforce_order") { a: i32 [], b: String [] }
     row R34 (flavor = "enforce_order", skip_name_checks) { s: i32 [skip], a: i32 [], t: String [skip], b: String [default_when_null] }
     row R33 (flavor = "enforce_order") { u: U2 [], l: Vec<i32> [default_when_null], o: Option<Vec<i32>> [] }
     // ---------------- SerializeRow with flatten (by name) ----------------
@@ -389,6 +407,8 @@ family! {
     srow S07 (flavor = "match_by_name") { e: IE [flatten], a: i32 [], inner: I0 [flatten] }
     srow S08 (flavor = "match_by_name") { s: IS [flatten], inner: I0 [flatten] }
     srow S09 (flavor = "match_by_name") { inner: I0 [flatten], e: IE [flatten], a: i32 [] }
+    srow IR () { r#type: i32 [], x2: String [rename = "xx"] }
+    srow SR1 () { r#fn: i32 [], inner: IR [flatten] }
     srow IL (flavor = "match_by_name") { l: Vec<i32> [], m: MaybeUnset<i32> [] }
     srow S31 (flavor = "match_by_name") { a: MaybeUnset<i32> [], inner: IL [flatten], u: U2 [] }
     // ---------------- SerializeRow with flatten (declared order) ----------------
@@ -396,5 +416,7 @@ family! {
     srow J1 (flavor = "enforce_order", skip_name_checks) { p: i32 [] }
     srow S21 (flavor = "enforce_order") { a: i32 [], inner: J0 [flatten], b: String [] }
     srow S22 (flavor = "enforce_order") { inner: J1 [flatten], a: i32 [] }
+    srow JR (flavor = "enforce_order") { r#match: i32 [], y2: String [rename = "yy"] }
+    srow SR2 (flavor = "enforce_order") { inner: JR [flatten], r#type: String [] }
     srow S23 (flavor = "enforce_order", skip_name_checks) { a: i32 [], inner: J0 [flatten] }
 }
